@@ -1105,6 +1105,12 @@ namespace
                                     putAPValue(vo, *val, v->getType());
                         }
                     }
+                    {
+                        const VarDecl* dv2 = nullptr;
+                        const Expr* init2 = v->getAnyInitializer(dv2);
+                        if (init2 && !init2->isValueDependent() && vo.find("cv") == vo.end())
+                            vo["init"] = emitExpr(init2);
+                    }
                     svars.push_back(std::move(vo));
                 }
             }
